@@ -5,7 +5,8 @@ Correspondence: the real `StaticFileHandler.handle` (and, for a sample of every 
 document trees x request-path spellings, against `Fs.handle` over the executable symlink-tree
 model in Lean; the same with ONE long-lived handler while the tree is edited between rounds of
 requests (`sequence`: the model keeps no state, every answer is compared with `Fs.handle` on the
-tree as it is on disk at that moment); `canonical_path` against `Fs.Canon.canonSegs`; the port
+tree as it is on disk at that moment; `wear`: the tree stays, the handler answers hundreds of requests of every
+kind in a process that may open only a few dozen more files, and must answer afterwards as before); `canonical_path` against `Fs.Canon.canonSegs`; the port
 of `posixpath._joinrealpath` against the kernel.
 """
 from __future__ import annotations
@@ -39,7 +40,7 @@ ASSUMPTIONS = [
     "the executable symlink tree (port of posixpath._joinrealpath of Python 3.12.1, kernel-style walk, ELOOP probe, ENAMETOOLONG) that instantiates the OS for the driver is validated only by this differential run against the kernel",
     "file contents are identified by a per-file sentinel; MIME type selection and the exact text of directory listings beyond the set of listed names are compared but not covered by theorems",
     "PermissionError branches cannot be provoked (the harness runs as root); they are modelled (Fail.denied) but not exercised",
-    "the handler keeps no state between requests: the theorems are about one request on one OS state; that an answer depends on nothing but the tree at that moment and the request (no cache of locations, contents or misses) is tested only by the `sequence` family, and only for edits made between requests, not during one",
+    "the handler keeps no state between requests: the theorems are about one request on one OS state; that an answer depends on nothing but the tree at that moment and the request (no cache of locations, contents or misses) is tested only by the `sequence` family, and only for edits made between requests, not during one; that a request leaves nothing behind in the PROCESS (descriptors) only by the `wear` family (a few hundred requests under a lowered RLIMIT_NOFILE)",
 ]
 LEVEL_TEXT = (
     "partial: proved for every OS behaviour, configuration and request path over the Lean model — a 20 response carries the content "
@@ -336,6 +337,36 @@ def _requests(rng, tree, n, own_p=0.3):
     return paths
 
 
+def _brief(r):
+    s = repr((r[1:] if r and isinstance(r[0], str) and r[0].startswith("/") else r)[:4])      # (without the echoed request path)
+    return s if len(s) <= 160 else s[:150] + "...]"
+
+
+def _link_requests(rng, tree, links=None, k=4):
+    """request paths aimed at the symlinks inside the root (all of them, or the given ones): the link itself, with a
+    trailing slash (= "the directory it stands for"), and entries reached THROUGH it - what lies next to the root, the
+    root itself seen from above, an index file"""
+    out = []
+    for p in (links if links is not None else [e[1] for e in tree if e[0] == "l" and e[1].startswith("root/")]):
+        lit, enc = T.own_spellings(p[len("root/"):])
+        if enc is None:
+            continue
+        out.append(lit)
+        out.append(lit + "/")
+        c = rng.random()
+        if c < 0.5:
+            out.append(lit + "/" + rng.choice(["out/", "out/secret", "root", "root/", "root-evil/", "index.gmi", "out/sub/", "out/sub", "./", "../"]))
+        elif c < 0.6:
+            out.append(enc + rng.choice(["", "/"]))
+    out = [x for x in dict.fromkeys(out) if len(x.encode("utf-8")) <= 1012]
+    if len(out) > k:
+        head = out[:2] if links is not None else []        # (the first given link is always asked both ways)
+        rest = [x for x in out if x not in head]
+        rng.shuffle(rest)
+        out = head + rest[:k - len(head)]
+    return out
+
+
 def _judge(paths, res, ents, outside, mx, when="", safety=True, complete=True, lvl0="handler"):
     """the property, evaluated on the answers to `paths` against the tree `ents` the requests met"""
     outside = set(outside)
@@ -347,7 +378,10 @@ def _judge(paths, res, ents, outside, mx, when="", safety=True, complete=True, l
             if leaked:
                 return ("outside-content", f"{when}{lvl}: request {_short(sp)} -> response contains the content of file(s) {[files[i][1] for i in leaked]} whose real path lies outside the document root")
             if x["mark"]:
-                return ("outside-listing", f"{when}{lvl}: request {_short(sp)} -> response shows entries of a directory outside the document root")
+                return ("outside-listing", f"{when}{lvl}: request {_short(sp)} -> {x['st']}, and the response shows entries of a directory outside the document root: {_brief(r)}")
+            if x["st"] == 20 and x.get("inside") is False:
+                return ("success-for-outside", f"{when}{lvl}: request {_short(sp)} -> 20, but that path (canonical form {_short(T.ref_canonical(T.url_path(sp)[1]))}) "
+                        f"resolves to a place that is neither the document root nor below it: {_brief(r)}")
             if x["st"] == 20 and x.get("resolves") is False:
                 return ("success-for-nothing", f"{when}{lvl}: request {_short(sp)} -> 20, but that path (canonical form {_short(T.ref_canonical(T.url_path(sp)[1]))}) "
                         f"names nothing below the document root (no such entry / not a directory / loop): {r[:3]}")
@@ -398,11 +432,19 @@ class Static(Family):
     def gen(self, rng: random.Random, n: int):
         for i in range(n):
             small = i % 5 == 0
-            tree = T.settle(T.gen_tree(rng, max_nodes=14 if small else 25, names=NAMES))
-            listing = rng.random() < 0.5
+            tree, ups = T.gen_tree(rng, max_nodes=14 if small else 25, names=NAMES), None
+            if i % 4 == 1:
+                tree, ups = T.ancestor_links(rng, tree, k=rng.randint(1, 3))      # links inside the root to the directory ABOVE it
+            tree = T.settle(tree)
+            listing = rng.random() < (0.5 if ups is None else 0.8)
             indices = None if rng.random() < 0.8 else rng.choice([["index.gmi"], ["f.gmi", "index.gmi"], ["index.gemini", "index.gmi", "a"]])
             mx = None if rng.random() < 0.6 else 300
-            yield {"tree": tree, "listing": int(listing), "indices": indices, "max": mx, "paths": _requests(rng, tree, 10)}
+            paths = _requests(rng, tree, 10)
+            if ups is not None or i % 3 == 0:
+                have = {e[1] for e in tree}
+                for x in _link_requests(rng, tree, None if ups is None else [u for u in ups if u in have], k=4 if ups is not None else 2):
+                    paths.insert(rng.randint(0, len(paths)), x)
+            yield {"tree": tree, "listing": int(listing), "indices": indices, "max": mx, "paths": paths}
 
     def setup(self):
         from nauyaca.protocol.constants import DEFAULT_MAX_FILE_SIZE, MAX_REQUEST_SIZE
@@ -471,6 +513,8 @@ class Static(Family):
             feat += "P"                      # link whose target passes through the link itself
         if any(T.UNDEC in e[1] for e in obs["ents"]):
             feat += "U"                      # undecodable file name
+        if any(e[1] == T.MARK + "0" for e in obs["ents"]):
+            feat += "A"                      # link(s) inside the root to the directory above it
         if links and not feat:
             feat = "L"
         return (feat or "-") + "|" + ",".join(sorted(ks))[:70]
@@ -489,7 +533,11 @@ class Sequence(Family):
 
     def gen(self, rng: random.Random, n: int):
         for i in range(n):
-            tree = T.settle(T.gen_tree(rng, max_nodes=13 if i % 3 else 20, names=NAMES if rng.random() < 0.5 else T.NAMES))
+            tree, ups = T.gen_tree(rng, max_nodes=13 if i % 3 else 20, names=NAMES if rng.random() < 0.5 else T.NAMES), []
+            if i % 5 == 2:
+                tree, ups = T.ancestor_links(rng, tree, k=rng.randint(1, 2))
+            tree = T.settle(tree)
+            ups = [u for u in ups if u in {e[1] for e in tree}]
             trees, did, touched = [tree], [[]], []
             floor = 8
             for _ in range(rng.choice([1, 1, 1, 2, 2, 3])):
@@ -526,7 +574,7 @@ class Sequence(Family):
                     aimed.append(sp[0] + "/" + rng.choice(["index.gmi", "..", ".", "a"]))
             aimed = [a for a in aimed if len(a.encode("utf-8")) <= 1012]
             rng.shuffle(aimed)
-            common = aimed[:10] + _requests(rng, tree, 4, own_p=0.15)
+            common = aimed[:10] + _requests(rng, tree, 4, own_p=0.15) + (_link_requests(rng, tree, ups, k=3) if ups else [])
             rng.shuffle(common)
             rounds = []
             for k, t in enumerate(trees):
@@ -621,6 +669,199 @@ class Sequence(Family):
                 c = dict(cur, rounds=[dict(rd, paths=[sp]) for rd in cur["rounds"]])
                 if bad(c):
                     return c
+        except Exception:  # noqa: BLE001
+            pass
+        return cur
+
+
+# ----------------------------------------------------------------------------------------------
+# ONE handler that has already answered MANY requests
+# ----------------------------------------------------------------------------------------------
+def _open_fds():
+    try:
+        return sorted(int(x) for x in os.listdir("/proc/self/fd"))
+    except (OSError, ValueError):
+        return None
+
+
+def _outcome_class(o):
+    """kind of answer x what the requested path is on disk (nothing / a place outside the root / a directory / a file)"""
+    r, x = o["r"], o["x"]
+    if r[0] == "reject":
+        return "reject"
+    what = "nothing" if not x.get("resolves") else "outside" if not x.get("inside") else "dir" if x.get("dir") else "file"
+    return ":".join(str(t) for t in r[1:3]) + "@" + what
+
+
+def run_wear(case, proto_sample: int = 3):
+    """one handler object: the requests once; then, with the process allowed only a few dozen more open files than it
+    has now (RLIMIT_NOFILE, soft), one request path per KIND of answer seen is asked again and again - more often than
+    there are free descriptors; then the same requests once more.  A server process lives for months: whatever a
+    request leaves behind (a descriptor, a directory handle, a lock) adds up until files inside the root are no longer
+    served.  The limit is restored, and descriptors the handler left open are closed, before the case returns."""
+    import resource
+
+    from nauyaca.server.handler import StaticFileHandler
+    from nauyaca.protocol.request import GeminiRequest
+
+    tree, paths = case["tree"], case["paths"]
+    with T.Built(tree) as built:
+        h = StaticFileHandler(built.root, default_indices=case.get("indices"), enable_directory_listing=bool(case["listing"]),
+                              max_file_size=case.get("max"))
+        ok = built.ents == [list(e) for e in tree]
+        outside = built.outside_ids()
+        first = _ask(h, built, paths, proto_sample)
+        # one path per kind of answer (non-success kinds first), in the order of the request list
+        kinds: dict[str, str] = {}
+        for sp, o in zip(paths, first):
+            c = _outcome_class(o)
+            if c != "reject" and c not in kinds:
+                kinds[c] = sp
+        order = sorted(kinds, key=lambda c: (c.startswith("20"), list(kinds).index(c)))[:case.get("kinds", 10)]
+        before = _open_fds()
+        soft, hard = resource.getrlimit(resource.RLIMIT_NOFILE)
+        hammer, room, limit = [], None, None
+        try:
+            if before is not None:
+                limit = before[-1] + 1 + int(case["spare"])
+                if hard != resource.RLIM_INFINITY:
+                    limit = min(limit, hard)
+                room = limit - len(before)
+                resource.setrlimit(resource.RLIMIT_NOFILE, (limit, hard))
+            times = (room if room is not None else int(case["spare"])) + int(case["more"])
+            for c in order:
+                sp = kinds[c]
+                req = GeminiRequest.from_line("gemini://h" + sp)
+                seen, rs = [], []
+                for j in range(times):
+                    try:
+                        r = h.handle(req)
+                        cr, cx = _canon_response(r.status, r.meta, r.body, req.path, built)
+                        cr = [req.path] + cr
+                    except Exception as e:  # noqa: BLE001
+                        cr, cx = [req.path, "raised"], {"st": 40, "sent": T.sentinels_in(str(e)), "metasent": T.sentinels_in(str(e)),
+                                                         "mark": False, "nobody": True, "exc": type(e).__name__}
+                    if cr not in rs:
+                        rs.append(cr)
+                        seen.append({"r": cr, "x": cx, "at": j})
+                hammer.append({"path": sp, "kind": c, "times": times, "seen": seen})
+            second = _ask(h, built, paths, proto_sample)
+        finally:
+            resource.setrlimit(resource.RLIMIT_NOFILE, (soft, hard))
+            after = _open_fds()
+            left = []
+            if before is not None and after is not None:
+                for fd in after:
+                    if fd in before:
+                        continue
+                    try:
+                        where = os.readlink("/proc/self/fd/%d" % fd)
+                    except OSError:
+                        continue
+                    if where.startswith(built.base):          # (only what was opened below the case's own directory)
+                        left.append(where[len(built.base):])
+                        try:
+                            os.close(fd)
+                        except OSError:
+                            pass
+        return {"rounds": [{"res": first, "outside": outside, "ents": [list(e) for e in built.ents], "ents_ok": ok},
+                           {"res": second, "outside": outside, "ents": [list(e) for e in built.ents], "ents_ok": ok}],
+                "hammer": hammer, "limit": limit, "room": room, "left_open": len(left), "left_sample": sorted(set(left))[:3],
+                "indices": list(h.default_indices), "max": h.max_file_size}
+
+
+class Wear(Sequence):
+    """ONE long-lived `StaticFileHandler` that answers the same request hundreds of times - one request path for every
+    kind of answer (file too large, not found, directory without index, link leading outside, not UTF-8, a file, a
+    listing ...) - in a process that may open only a few dozen more files than it has open: afterwards every regular file
+    inside the root must still be served by its own path, and nothing outside it.  The tree does not change: both rounds
+    (before / after) are compared with `Fs.handle` on the same tree, and every answer in between with the first."""
+    name = "wear"
+    quick_n = 160
+    thorough_n = 3000
+
+    def gen(self, rng: random.Random, n: int):
+        for i in range(n):
+            tree = T.gen_tree(rng, max_nodes=14 if i % 2 else 20, names=NAMES if rng.random() < 0.4 else T.NAMES)
+            fid = max(e[2] for e in tree if e[0] == "f") + 1
+            have = {e[1] for e in tree}
+            aimed = ["/zz-nothing-here", "/zz-nothing-here/"]
+            # entries that give the non-success answers, whatever else the tree holds: a file over the size limit, a
+            # directory without an index file, a file that is not UTF-8, links leading outside, a dangling link
+            for ent, req in ((["f", "root/big.gmi", fid, True, 400 + rng.randint(0, 300)], "/big.gmi"), (["d", "root/bare"], "/bare/"),
+                             (["f", "root/bare/latin1.txt", fid + 1, False, 0], "/bare/latin1.txt"),
+                             (["l", "root/esc", rng.choice(["../out/secret", "/out/secret", "../root-evil/e"])], "/esc"),
+                             (["l", "root/escd", rng.choice(["../out", "/out/sub", "../root-evil"])], "/escd/"),
+                             (["l", "root/dangling", "nowhere"], "/dangling"),
+                             (["f", "root/small.gmi", fid + 2, True, 0], "/small.gmi")):
+                if ent[1] not in have and rng.random() < 0.8:
+                    tree.append(ent)
+                    have.add(ent[1])
+                    aimed.append(req)
+            tree = T.settle(T.normalise(tree))
+            paths = aimed + _requests(rng, tree, 6, own_p=0.8)
+            rng.shuffle(paths)
+            mx = 300 if rng.random() < 0.75 else None
+            yield {"tree": tree, "listing": int(rng.random() < 0.5), "indices": None if rng.random() < 0.85 else ["f.gmi", "index.gmi"], "max": mx,
+                   "paths": paths, "spare": rng.choice([24, 32, 40]), "more": rng.choice([12, 24]), "kinds": 10}
+
+    def impl(self, case):
+        return run_wear(case)
+
+    @staticmethod
+    def _rounds(case, obs=None):
+        did = "the requests of the first round, then"
+        if obs is not None:
+            did = (f"{', '.join(str(hm['times']) + ' x ' + _short(hm['path']) + ' -> ' + hm['kind'] for hm in obs['hammer'])}, "
+                   f"in a process allowed {obs['room']} more open files (RLIMIT_NOFILE {obs['limit']})"
+                   + (f"; the handler left {obs['left_open']} descriptor(s) open, e.g. on {obs['left_sample']}" if obs.get("left_open") else ""))
+        return [{"tree": case["tree"], "paths": case["paths"], "did": []}, {"tree": case["tree"], "paths": case["paths"], "did": [did]}]
+
+    def model(self, case):
+        return Sequence.model(self, dict(case, rounds=self._rounds(case)))
+
+    def expect(self, case, out):
+        return Sequence.expect(self, dict(case, rounds=self._rounds(case)), out)
+
+    def same(self, expected, obs):
+        if not Sequence.same(self, expected, obs):
+            return False
+        # in between: every repetition got the answer the first request got
+        return all(len(hm["seen"]) == 1 for hm in obs["hammer"])
+
+    def oracle(self, case, obs):
+        rounds = self._rounds(case, obs)
+        # the answers given in between: containment (an error answer is an error answer: no content)
+        for hm in obs["hammer"]:
+            for s in hm["seen"]:
+                v = _judge([hm["path"]], [s], obs["rounds"][0]["ents"], obs["rounds"][0]["outside"], obs["max"],
+                           f"one handler, request number {s['at'] + 1} of {hm['times']} for the same path - ", complete=False)
+                if v is not None:
+                    return v
+        total = sum(hm["times"] for hm in obs["hammer"])
+        whens = ["", f"one handler that has answered {total} more requests - "]
+        for part in ({"complete": False}, {"safety": False}):
+            for k, (rd, ob, when) in enumerate(zip(rounds, obs["rounds"], whens)):
+                v = _judge(rd["paths"], ob["res"], ob["ents"], ob["outside"], obs["max"], when, **part)
+                if v is not None:
+                    return (v[0], v[1] + (f" [in between: {_fold(rd['did'][0])}]" if k else ""))
+        return None
+
+    def key(self, case, obs):
+        ks = sorted(hm["kind"] for hm in obs["hammer"])
+        moved = sum(1 for a, b in zip(obs["rounds"][0]["res"], obs["rounds"][1]["res"]) if a["r"] != b["r"])
+        return ",".join(ks)[:70] + (f"|moved{moved}" if moved else "") + (f"|left{min(obs['left_open'], 9)}" if obs.get("left_open") else "")
+
+    def shrink(self, case, bad):
+        """fewer request paths (the hammered ones are chosen among them)"""
+        cur = case
+        try:
+            for sp in list(cur["paths"]):
+                if len(cur["paths"]) <= 2:
+                    break
+                c = dict(cur, paths=[x for x in cur["paths"] if x != sp])
+                if bad(c):
+                    cur = c
         except Exception:  # noqa: BLE001
             pass
         return cur
@@ -772,7 +1013,9 @@ class Served(Family):
         # (the command-line --max-file-size is not handed to [[locations]] handlers - only the table's own or the
         # [server] max_file_size count there - so it is generated for the other two routes only)
         for i in range(n):
-            tree = T.gen_tree(rng, max_nodes=14 if i % 3 == 0 else 22, names=NAMES)
+            tree, ups = T.gen_tree(rng, max_nodes=14 if i % 3 == 0 else 22, names=NAMES), []
+            if i % 4 == 1:
+                tree, ups = T.ancestor_links(rng, tree, k=rng.randint(1, 2))
             extra, sp = _root_spelling(rng, tree)
             with T.Built(T.normalise(tree + extra)) as b:      # (what `settle` does) + the spelling must name the root for the kernel
                 tree = b.ents
@@ -791,7 +1034,7 @@ class Served(Family):
                    "indices": None if how != "location" or rng.random() < 0.8 else rng.choice([["index.gmi"], ["f.gmi", "index.gmi"]]),
                    "max": mx, "max_by": rng.choice(["loc", "server"] if how == "location" else ["server", "cli"] if how == "server" else ["cli"]),
                    "ratelimit": int(how == "arg" or rng.random() < 0.3),
-                   "paths": _requests(rng, tree, 8, own_p=0.6)}
+                   "paths": _requests(rng, tree, 8, own_p=0.6) + (_link_requests(rng, tree, [u for u in ups if u in {e[1] for e in tree}], k=3) if ups else [])}
 
     def impl(self, case):
         return run_served(case)
@@ -989,4 +1232,4 @@ class Realpath(Family):
         return "skip" if obs["r"] is None else obs["r"][1].split("@")[0][:4] + (":links" if any(e[0] == "l" for e in case["tree"]) else "")
 
 
-FAMILIES = [Static(), Sequence(), Served(), CanonFam(), Realpath()]
+FAMILIES = [Static(), Sequence(), Wear(), Served(), CanonFam(), Realpath()]
